@@ -4,8 +4,8 @@ Require Import EoNV.Gen.Effects.
 Import ListNotations.
 Open Scope string_scope.
 Definition one (n : string) := filter (fun fd => String.eqb (fn_name fd) n) eon_program.
-Eval vm_compute in (report eon_program (one "fast_nonMarkov_SIR")).
-Eval vm_compute in (dead_report eon_program (one "fast_nonMarkov_SIR")).
+Eval vm_compute in (report eon_program (one "_dSIR_pair_based_")).
+Eval vm_compute in (dead_report eon_program (one "_dSIR_pair_based_")).
 Eval vm_compute in (report eon_program (one "SIR_pair_based")).
 Eval vm_compute in (dead_report eon_program (one "SIR_pair_based")).
 Eval vm_compute in (report eon_program (one "SIS_effective_degree_from_graph")).
